@@ -164,7 +164,7 @@ pub fn run(ctx: &mut Ctx) {
     }
     // keywords are case-insensitive for the parser (word keywords, word operators, and the words the grammar
     // matches by text: PRIORITY, INTERVAL, action qualifiers, literal prefixes, units): every program with at most
-    // one deviation is parsed again with all of them in lower case and must give the same tree
+    // one deviation is parsed again with all of them, and every identifier, in lower case and must give the same tree up to letter case
     {
         use crate::lex::{spell, Class};
         let hosts: Vec<&gram::Case> = cases.iter().filter(|c| c.labels.len() <= 1).collect();
@@ -175,7 +175,7 @@ pub fn run(ctx: &mut Ctx) {
                 let mut changed = false;
                 for l in lx.iter_mut() {
                     let wordy = l.text.chars().all(|ch| ch.is_ascii_alphanumeric() || ch == '_') && l.text.chars().any(|ch| ch.is_ascii_uppercase());
-                    if wordy && (l.class == Class::Keyword || l.class == Class::Op || l.class == Class::LitPart) {
+                    if wordy && (l.class == Class::Keyword || l.class == Class::Op || l.class == Class::LitPart || l.class == Class::Ident) {
                         l.text = l.text.to_ascii_lowercase();
                         changed = true;
                     }
